@@ -70,6 +70,20 @@ def gated_sources(ctx):
     out = os.path.join(d, "api_app.go")
     open(out, "w").write(src)
     rep["api_app.go"] = out
+    # the cache go-orbit-db writes "_localHeads" to (orbitdb_datastore_cache.go): the copy hands out a datastore whose Put of that key
+    # passes the gate "append" first, i.e. BETWEEN go-orbit-db's oplog.Append and its cache write in BaseStore.AddOperation (the
+    # library itself cannot be touched: files of the module cache cannot be overlaid).  Only armed by scripts with cfg.libgate.
+    p = os.path.join(vf.REPO, "orbitdb_datastore_cache.go")
+    placed["append"] = False
+    if os.path.exists(p):
+        src = open(p).read()
+        needle = "return datastoreutil.NewNamespacedDatastore(d.ds, datastore.NewKey(dbAddress.String())), nil"
+        if src.count(needle) == 1:
+            src = src.replace(needle, "return vfglGatedDS{datastoreutil.NewNamespacedDatastore(d.ds, datastore.NewKey(dbAddress.String()))}, nil")
+            out = os.path.join(d, "orbitdb_datastore_cache.go")
+            open(out, "w").write(src)
+            rep["orbitdb_datastore_cache.go"] = out
+            placed["append"] = True
     return rep, placed
 
 
@@ -105,6 +119,7 @@ CLAUSE_TEXT = {
     "O7": "at most one handler goroutine per open context",
     "O8": "an open-ended listing whose group is no longer opened has ended",
     "O9": "no request hangs",
+    "O10": "a group's metadata log never holds fewer entries than it was seen to hold (nothing lost by deactivate / activate); the recorded contact stays known",
     "L1": "after the service was closed no goroutine of the package is left and Close returned",
     "P1": "no request makes a service method panic (C19)",
 }
@@ -222,16 +237,16 @@ def gen(ctx, gl):
     quick = ctx.tier == "quick"
     # (name, opkinds, groups, maxreq, maxlen, simulate walks or None = exhaustive, keep)
     plans = [
-        ("aa", ["act", "deact"], ["A"], 3, 12, None, 40),
-        ("mm", ["join", "act", "deact", "sendm", "listm"], ["M"], 6, 14, 60, 30),
-        ("ac", ["accept", "act", "deact", "info"], ["A", "C"], 6, 14, 60, 30),
-        ("cl", ["join", "act", "deact", "sendm", "close"], ["A", "M"], 6, 16, 60, 30),
-        ("sm", ["join", "act", "deact", "sendm", "sub", "cancel"], ["M"], 7, 16, 60, 25),
-        ("cr", ["create", "deact", "act", "sendd", "listd", "info"], ["A", "M"], 6, 14, 50, 25),
-        ("all", ALLOPS, ["A", "C", "M"], 8, 18, 80, 40),
+        ("aa", ["act", "deact"], ["A"], 3, 12, None, 60),
+        ("mm", ["join", "act", "deact", "sendm", "listm"], ["M"], 6, 20, 300, 60),
+        ("ac", ["accept", "act", "deact", "info"], ["A", "C"], 6, 20, 300, 60),
+        ("cl", ["join", "act", "deact", "sendm", "close"], ["A", "M"], 7, 22, 300, 60),
+        ("sm", ["join", "act", "deact", "sendm", "sub", "cancel"], ["M"], 7, 22, 300, 50),
+        ("cr", ["create", "deact", "act", "sendd", "listd", "info"], ["A", "M"], 6, 20, 300, 50),
+        ("all", ALLOPS, ["A", "C", "M"], 8, 26, 400, 80),
     ]
     if quick:
-        plans = [(n, o, g, mr, ml, (w if w is None else max(12, w // 4)), max(4, k // 5)) for (n, o, g, mr, ml, w, k) in plans]
+        plans = [(n, o, g, mr, ml, (w if w is None else w // 4), k // 4) for (n, o, g, mr, ml, w, k) in plans]
     jobs = []
     for (name, ops, groups, mr, ml, walks, keep) in plans:
         consts = {"OpKinds": _set(ops), "ReqG": _set(groups), "MaxReq": str(mr), "MaxLen": str(ml)}
@@ -308,8 +323,10 @@ def random_scripts(rng, n, length):
                     b = one()
                     if b[0] == "create" and (a[0] == "join" or (len(a) > 1 and a[1] == "M")):
                         b = ("deact", "A")
-                if a[0] == "join" and b[0] == "join":
-                    b = ("act", "M", 0)
+                # two concurrent joins / accepts of the same group / contact both pass the handler's state check and both append
+                # (check-then-act without a lock, D7): GroupLife.tla has these requests atomic, such pairs are not generated
+                if a[0] == b[0] and a[0] in ("join", "accept"):
+                    b = ("act", "A", 0)
                 steps.append(run(a, b))
             else:
                 steps.append(run(one()))
@@ -474,6 +491,46 @@ def _panics(evs):
     return out
 
 
+# ------------------------------------------------------------------------------------------------ D6 demonstration
+def stn(c, y):
+    return {"act": "step", "x": c, "y": y}
+
+
+# two AppMetadataSend on one group; the first is held between go-orbit-db's oplog.Append and its write of "_localHeads" (gate "append"
+# in the cache datastore), the second runs through, then the first writes its (older) head over it.  Steps with y=1 do not block: with
+# appends serialised (a repaired store) the second request waits for the first and the same script still terminates.
+D6_SCRIPT = [run(("join",)), run(("act", "M")), run(("sendd", "M")), st(1, "sendd", "M"), sp(1), st(2, "sendd", "M"), stn(2, 1), stn(2, 1), sp(1), stn(2, 1), stn(2, 1),
+             run(("listd", "M")), run(("deact", "M")), run(("act", "M")), run(("listd", "M")), run(("sendd", "M")), run(("deact", "M")), run(("act", "M")), run(("listd", "M"))]
+
+
+def log_loss_demo(ctx, binary, gl, placed):
+    if not placed.get("append"):
+        gl["log_loss_demo"] = {"skipped": "the gate in orbitdb_datastore_cache.go could not be placed"}
+        return
+    evs, crashes = replay(ctx, binary, [{"id": 0, "cfg": {"libgate": True, "plan": "D6"}, "steps": D6_SCRIPT}], "d6", 1, gl)
+    b = dict(vf.split_traces(evs)).get(0, [])
+    reqs = [o for e in b for o in (e.get("ops") or ([e] if e.get("ev") in ("start", "step") else []))]
+    if crashes or not b or any(o.get("r") in ("panic", "hang") for o in reqs):
+        gl["log_loss_demo"] = {"skipped": "the demonstration script did not run through", "replies": [o.get("r") for o in reqs]}
+        ctx.drift.append({"trace": "group_lifecycle", "what": "log-loss demonstration did not run through", "replies": [o.get("r") for o in reqs][:30]})
+        return
+    lists = [(i, e["ops"][0]["n"]) for i, e in enumerate(b) if e.get("ev") == "run" and e["ops"][0]["op"] == "listd"]
+    out = {"script": _text({"steps": D6_SCRIPT}), "gates_seen": [o["r"] for o in reqs if str(o.get("r", "")).startswith(("at:", "blocked"))], "listings": []}
+    lost = 0
+    for (i, n) in lists:
+        oks = sum(1 for e in b[:i] for o in (e.get("ops") or ([e] if e.get("ev") in ("start", "step") else [])) if o.get("op") == "sendd" and o.get("r") == "ok")
+        out["listings"].append({"acknowledged_sends": oks, "listed": n})
+        lost = max(lost, oks - n)
+    out["acknowledged_entries_missing_after_reactivation"] = lost
+    out["reproduced"] = lost > 0
+    out["what"] = ("D6 two appends to one group's store overlap (go-orbit-db BaseStore.AddOperation: oplog.Append, then Put(_localHeads, [that entry]) with no lock "
+                   "around the two; weshnet does not serialise the callers - two clients, or a client and the context's own handler goroutine): the cache can "
+                   "end up naming the OLDER entry as the only local head, and after the next deactivate / activate (or restart) the acknowledged newer entry is "
+                   "not in the log any more.  Also seen without any gate (about 1 in 250 plain account-group reactivations at load 40: the contact request "
+                   "recorded during set-up was gone).")
+    gl["log_loss_demo"] = out
+
+
 # ------------------------------------------------------------------------------------------------ entry
 def run_part(ctx, replay_obj=None):
     t0 = time.time()
@@ -492,7 +549,7 @@ def run_part(ctx, replay_obj=None):
     if replay_obj is None:
         design_level(ctx, gl)
         scripts = gen(ctx, gl)
-        nrand = 10 if quick else 60
+        nrand = 25 if quick else 120
         scripts += [{"id": 0, "cfg": {"plan": "random"}, "steps": s_} for s_ in random_scripts(ctx.rng, nrand, 10 if quick else 14)]
     else:
         scripts = [replay_obj["script"]]
@@ -547,6 +604,9 @@ def run_part(ctx, replay_obj=None):
         else:
             ctx.drift.append({"trace": "group_lifecycle", "what": "panic / process death not reproduced on a solo run: " + what, "script": rec["script"]})
 
+    if replay_obj is None:
+        log_loss_demo(ctx, binres["bin"], gl, placed)
+
     # ---- conformance (drift) and the design clauses on observed values (observations)
     t2 = time.time()
     accepted, drift = conformance(ctx, blocks, "gl")
@@ -573,6 +633,15 @@ def run_part(ctx, replay_obj=None):
             o["scripts"].add(bid)
             if bid in acc:
                 o["in_conformant_traces"] += 1
+    # goroutines left after Close: explained where the trace is a behaviour of the model and the model itself leaves a live context
+    # outside openedGroups (D2: seen as O3 in the same trace) or the script races Close with an activation (D5)
+    o3 = set(b for (b, _, cl, _) in bad if "O3" in cl)
+    if "L1" in obs:
+        l1 = set(b for (b, _, cl, _) in bad if "L1" in cl)
+        unexpl = sorted(b for b in l1 if not (b in acc and (b in o3 or "close" in _text(sid[b]))))
+        obs["L1"]["explained_by"] = None if unexpl else "D2/D5 (Close only deactivates what openedGroups holds)"
+        if unexpl:
+            obs["L1"]["scripts"] = set(unexpl)
     for c, o in sorted(obs.items()):
         first = min(o["scripts"])
         o["first_script"] = _text(sid[first])
